@@ -171,7 +171,7 @@ class C11(Check):
             "from files.  State of the reference loader = (set of initialised modules, per-module counter and list); every project is one "
             "model trace replayed on the implementation.  Import statements that are EXECUTED MORE THAN ONCE: in a function / method called several times, in a loop body, "
             "in both arms of an if, in a nested function, in a function and at module level (either order), in two functions - under 4 import forms / spellings: one initialisation, one shared instance.  "
-            "Module NAMES: the graphs with n <= 4 (n <= 2 all edge combinations, n = 3 one deviating edge, n = 4 default edges, sub-directory variants) are repeated with module names that are suffixes / prefixes of one another and of `main` (ain, in, n; mai, ma, m; m1, m11, m_1).")
+            "Name clashes: the importer (and a second importer) own a variable named like the module's state while the module's functions, the closures they return and the methods of its classes update that state (5 shapes x 2 import forms).  Module NAMES: the graphs with n <= 4 (n <= 2 all edge combinations, n = 3 one deviating edge, n = 4 default edges, sub-directory variants) are repeated with module names that are suffixes / prefixes of one another and of `main` (ain, in, n; mai, ma, m; m1, m11, m_1).")
     assumptions = ["a module in a sub-directory imports only modules of that sub-directory (the grammar cannot name a parent directory)", "a module's exported counter is mutated through its own exported closures"]
     chunksize = 8
     quick_cap_s = 300
@@ -270,7 +270,7 @@ class C11(Check):
                 if b == 0 or w in ("fn-then-module", "module-then-fn", "two-functions", "if-arm-in-fn")]
         rens = [("ren", sch, c) for sch in self.RENAMES for c in list(all_combos(2)) + list(deviating(3, 1)) + list(deviating(4, 0))] + \
                [("ren", sch, c) for sch in ("suffix-chain", "suffix-chain-reversed") for c in subdirs_dev(0, ns=(2, 3))]
-        ls = [("Lr-import-statements-executed-more-than-once", reps), ("Ln-module-names-that-are-suffixes-or-prefixes-of-one-another", rens), ("L0-negative-cases", list(negatives())), (f"Lv-visibility-matrix-modules-of-<={2 if tier == 'quick' else 3}-declarations", list(visibility(2 if tier == "quick" else 3))),
+        ls = [("Lc-importer-variables-named-like-the-module's-state", [("clash", k, f) for k in self.CLASH_KINDS for f in (0, 1)]), ("Lr-import-statements-executed-more-than-once", reps), ("Ln-module-names-that-are-suffixes-or-prefixes-of-one-another", rens), ("L0-negative-cases", list(negatives())), (f"Lv-visibility-matrix-modules-of-<={2 if tier == 'quick' else 3}-declarations", list(visibility(2 if tier == "quick" else 3))),
               ("L0b-leaf-modules-without-exports", noexports(4, 1) if tier == "quick" else noexports(5, 1))]
         if tier == "quick":
             ls += [("L1-n<=2-all-combinations", all_combos(2)), ("L2-n=3-<=2-deviating-edges", deviating(3, 2)),
@@ -286,6 +286,8 @@ class C11(Check):
     def describe(self, case):
         if case[0] == "ren":
             return dict(self.describe(case[2]), module_names=self.RENAMES[case[1]])
+        if case[0] == "clash":
+            return {"importer has its own `cnt`; module state reached through": case[1], "import form": ["import m", "import names from m"][case[2]]}
         if case[0] == "rep":
             return {"import executed more than once": case[1], "forms": [self.REP_FORMS[case[2]][0], self.REP_FORMS[case[3]][0]]}
         if case[0] == "neg":
@@ -453,8 +455,41 @@ class C11(Check):
         L += ['print "end"']
         return {"main.ms": "\n".join(L) + "\n", "m.ms": mod}, exp + ["end"]
 
+    # NAME CLASHES between an importer's own variables and the state of the module it calls into: the module's functions (and the closures and
+    # methods they create while running on the importer's behalf) work on the MODULE's variables
+    CLASH_KINDS = ["direct", "inner-closure", "inner-closure-called-later", "method", "two-importers"]
+
+    def clash_project(self, case):
+        _, kind, form = case
+        mod = ('cnt = 0\nexport bump: fn() -> int = fn() -> int {\n\tmodify cnt = cnt + 1\n\treturn cnt\n}\n'
+               'export mk: fn() -> fn() -> int = fn() -> fn() -> int {\n\treturn fn() -> int {\n\t\tmodify cnt = cnt + 10\n\t\treturn cnt\n\t}\n}\n'
+               'export class Ctr {\n\tconstructor(self) {}\n\tfn hit(self) -> int {\n\t\tmodify cnt = cnt + 100\n\t\treturn cnt\n\t}\n}\n'
+               'export peek: fn() -> int = fn() -> int {\n\treturn cnt\n}\n')
+        pre = "m." if form == 0 else ""
+        imp = "import m" if form == 0 else "import bump, mk, Ctr, peek from m"
+        L = [imp, "cnt = 7", 'print "start"']
+        exp = ["start"]
+        if kind == "direct":
+            L += [f"print {pre}bump()", "print cnt", f"print {pre}peek()"]
+            exp += ["1", "7", "1"]
+        elif kind == "inner-closure":
+            L += [f"k = {pre}mk()", "print k()", "print cnt", f"print {pre}peek()", "print k()", f"print {pre}peek()"]
+            exp += ["10", "7", "10", "20", "20"]
+        elif kind == "inner-closure-called-later":
+            L += ["run = fn(g: fn() -> int) -> int {", "\tcnt = 50", "\treturn g() + cnt", "}", f"k = {pre}mk()", "print run(k)", "print cnt", f"print {pre}peek()"]
+            exp += ["60", "7", "10"]
+        elif kind == "method":
+            L += [f"c1 = {pre}Ctr()", "print c1.hit()", "print cnt", f"print {pre}peek()"]
+            exp += ["100", "7", "100"]
+        elif kind == "two-importers":
+            other = (imp + "\ncnt = 500\nexport go: fn() -> int = fn() -> int {\n\tk = " + pre + "mk()\n\treturn k() + cnt\n}\n")
+            L = ["import other"] + L + [f"print {pre}bump()", "print other.go()", "print cnt", f"print {pre}peek()"]
+            exp += ["1", "511", "7", "11"]
+            return {"main.ms": "\n".join(L + ['print "end"']) + "\n", "m.ms": mod, "other.ms": other}, exp + ["end"]
+        return {"main.ms": "\n".join(L + ['print "end"']) + "\n", "m.ms": mod}, exp + ["end"]
+
     def run_rep(self, case):
-        files, exp = self.rep_project(case)
+        files, exp = self.clash_project(case) if case[0] == "clash" else self.rep_project(case)
         viol = []
         for path in ("run", "exec"):
             d = driver.fresh_dir()
@@ -468,14 +503,14 @@ class C11(Check):
             if driver.compile_rejected(res):
                 return {"outcome": "rep-rejected", "nontrivial": False, "tags": ["rep-rejected", f"rep-rejected-{case[1]}"], "show": res.out[-300:]}
             if res.exit != 0 or res.lines() != exp:
-                viol.append({"sig": {"kind": "import-executed-more-than-once", "where": case[1], "path": path},
+                viol.append({"sig": {"kind": "import-executed-more-than-once" if case[0] == "rep" else "importer-variable-named-like-module-state", "where": case[1], "path": path},
                              "what": f"{self.describe(case)} ({path}): expected {exp}, got exit {res.exit} and {res.lines()} {res.err[-200:]}",
                              "detail": {"files": files, "res": res.brief(), "expected_lines": exp}})
                 break
-        return {"outcome": "rep-ok" + ("-DIFF" if viol else ""), "viol": viol, "nontrivial": True, "tags": ["rep", f"rep-{case[1]}"]}
+        return {"outcome": "rep-ok" + ("-DIFF" if viol else ""), "viol": viol, "nontrivial": True, "tags": [case[0], f"{case[0]}-{case[1]}"]}
 
     def run_case(self, case):
-        if case[0] == "rep":
+        if case[0] in ("rep", "clash"):
             return self.run_rep(case)
         if case[0] == "neg":
             return self.run_neg(case)
